@@ -1,27 +1,27 @@
 CONSTANTS
   N = 1
   MinAgree = 1
-  StepThresh = 1
+  StepThresh = 0
   SFwd2 = 9999
   SBwd2 = 9999
   Fwd2 = 9999
   Bwd2 = 9999
   Acc2 = 9999
-  TrackFreq = TRUE
+  TrackFreq = FALSE
   F0 = 0
   F0Neg = FALSE
   MaxSteer = 495
-  SlewMax = 600
+  SlewMax = 200
   MaxSamples = 1
-  Ghosts = FALSE
+  Ghosts = TRUE
   Readd = TRUE
-  OffPos = {0, 1}
-  OffNeg = {1}
+  OffPos = {0, 2}
+  OffNeg = {}
   LeapVals = {"none"}
   Wides = {FALSE}
   MaxChan = 2
-  Bound = 6
-  UsableVals = {TRUE}
+  Bound = 2
+  UsableVals = {TRUE, FALSE}
 INIT Init
 NEXT Next
 CHECK_DEADLOCK FALSE
